@@ -32,7 +32,7 @@
 EXTENDS ReplaceTypeContract
 
 CONSTANTS Positions, Others, SrcKinds, Targets, Levels, Placements,   \* the dimensions the contract speaks about
-          Templates, Listings, Formatters, Kinds, Extras, TdOpts,   \* how a case is observed / spelled: no influence on the expected outcome
+          Templates, Listings, Formatters, Kinds, Extras, TdOpts, Vis, DstStates,   \* how a case is observed / spelled: no influence on the expected outcome
           Wanted        \* set of dim tuples to export in full; {} = print dims only
 
 VARIABLES pos, other, srckind, target, level, place,
@@ -55,7 +55,7 @@ vars == <<pos, other, srckind, target, level, place, pc, cfg, out>>
 \*                 the mock rendered under {T |-> R} must be textually the mock rendered, without the setting, for a
 \*                 twin interface written with R directly.
 ASSUME PrintT(<<"OBSDIMS", ToJson([templ |-> Templates, listing |-> Listings, fmt |-> Formatters, kinds |-> Kinds,
-                                   extra |-> Extras, tdopt |-> TdOpts])>>)
+                                   extra |-> Extras, tdopt |-> TdOpts, vis |-> Vis, dststate |-> DstStates])>>)
 
 -----------------------------------------------------------------------------
 (* Code-shaped layer *)
